@@ -112,41 +112,39 @@ class RandOps(object):
         rot = ','.join("%d:%d" % (sc(a), sc(b)) for a, b in zip(rlo, rhi))
         # candidate stream: uniform calls come in (z, phi) pairs
         calls = rec.uniform_calls
-        batches, cand = [], {}
+        # the rotation (sampling in a frame turned by 180 degrees) is not observable through the proxy and is the
+        # same for every batch of one call: build the candidate stream in both frames and keep the one in which the
+        # returned points are candidates flagged valid (a per-batch guess goes wrong when early batches hold no
+        # valid point at all — tiny footprints)
         win = (0, 0)
-        off = 0
-        rotated = None
-        for i in range(0, len(calls) - 1, 2):
-            (zl, zh, z), (pl, ph, phi) = calls[i], calls[i + 1]
-            win = (sc(pl), sc(ph))
-            rac = np.degrees(phi)
-            decc = np.degrees(np.arcsin(z))
-            # the rotation is not observable through the proxy: try both, keep the one matching the output
-            flags = None
-            for r in ((False, True) if rotated is None else (rotated,)):
+        best = None
+        for r in (False, True):
+            batches, cand = [], {}
+            off = 0
+            for i in range(0, len(calls) - 1, 2):
+                (zl, zh, z), (pl, ph, phi) = calls[i], calls[i + 1]
+                win = (sc(pl), sc(ph))
+                rac = np.degrees(phi)
+                decc = np.degrees(np.arcsin(z))
                 rr = (rac - 180.0 if r else rac) % 360.0
-                fl = m.get_values_pos(rr, decc, lonlat=True, valid_mask=True)
-                sel = np.where(fl)[0]
-                if rotated is None and len(ra) > 0 and len(sel) > 0:
-                    if rr[sel[0]] == ra[0] and decc[sel[0]] == dec[0]:
-                        rotated, flags, rause = r, fl, rr
-                        break
-                elif rotated is not None:
-                    flags, rause = fl, rr
-            if flags is None:
-                flags, rause = m.get_values_pos(rac % 360.0, decc, lonlat=True, valid_mask=True), rac % 360.0
-            batches.append(''.join('1' if f else '0' for f in flags))
-            for j in np.where(flags)[0]:
-                cand.setdefault((float(rause[j]), float(decc[j])), off + int(j))
-            off += len(flags)
-        sel = []
-        ok = True
-        for a, b in zip(ra, dec):
-            k = cand.get((float(a), float(b)))
-            if k is None:
-                ok = False
+                flags = m.get_values_pos(rr, decc, lonlat=True, valid_mask=True)
+                batches.append(''.join('1' if f else '0' for f in flags))
+                for jj in np.where(flags)[0]:
+                    cand.setdefault((float(rr[jj]), float(decc[jj])), off + int(jj))
+                off += len(flags)
+            sel = []
+            ok = True
+            for a, b in zip(ra, dec):
+                k = cand.get((float(a), float(b)))
+                if k is None:
+                    ok = False
+                    break
+                sel.append(k)
+            if best is None or (ok and not best[0]):
+                best = (ok, batches, sel)
+            if ok:
                 break
-            sel.append(k)
+        ok, batches, sel = best
         starved = self._starved(m, ra, dec, vp, n)
         obs = "len=%d valid=%d det=%d starved=%d win=%d:%d sel=%s" % (
             len(ra) if len(ra) == len(dec) else -1, valid, det, starved, win[0], win[1],
